@@ -590,7 +590,7 @@ func checkC20(tier, replay string) int {
 		"indentation +-1, line drop/dup (family L), each mutated text also supplied at the three other " +
 		"argument positions device/netspoc/ipv6/raw (X), JSON/XML structural mutations (S, SX), info file " +
 		"mutations (I), garbage files (G), status file truncations/garbage for missing-approve (ST), " +
-		"valid generated pairs (V, when run by convergence checks). Cases are deduplicated by content hash of " +
+		"valid generated pairs of the convergence generators for all five device types (V) and the same line / structure mutations applied to some of them (VL, VS). Cases are deduplicated by content hash of " +
 		"all input files; a case is non-trivial if it differs from the unmutated original. " +
 		"Lines whose digit-normalised shape occurs more than 4 times in one text are skipped. " +
 		"quick = seeded 1-in-25 sample plus all known-finding reproducers; thorough = all."
@@ -620,6 +620,58 @@ func checkC20(tier, replay string) int {
 		}
 		inputs = append(inputs, in)
 	})
+	// Valid generated pairs (family V) and line / structure mutations of
+	// some of them (VL, VS): the inputs the convergence checks run on.
+	nV, nVL := 60, 2
+	if tier == "thorough" {
+		nV, nVL = 1500, 12
+	}
+	seenGen := make(map[string]bool)
+	addGen := func(in *c20Input) {
+		h := in.hash()
+		if seenGen[h] {
+			return
+		}
+		seenGen[h] = true
+		total++
+		if tier == "quick" && in.Family != "V" && rng.Intn(sampleMod) != 0 {
+			return
+		}
+		inputs = append(inputs, in)
+	}
+	gbase := env.Seed*1000003 + 200000
+	for i := 0; i < nV; i++ {
+		var pairs []*pairCase
+		for _, typ := range []string{"asa", "ios", "panos", "nsx"} {
+			pairs = append(pairs, genPair(typ, gbase+int64(i)).pair())
+		}
+		lc := genC05(gbase + int64(i))
+		pairs = append(pairs, &pairCase{Model: "Linux", Device: lc.Device, Files: map[string]string{"router": lc.Spoc},
+			Origin: fmt.Sprintf("linux seed=%d", lc.Seed)})
+		for _, pc := range pairs {
+			pc := pc
+			addGen(&c20Input{Model: pc.Model, Device: pc.Device, Files: pc.Files, Origin: "generated:" + pc.Origin, Family: "V", Prog: "drc"})
+			if i >= nVL {
+				continue
+			}
+			mut := mutateLines
+			fam := "VL"
+			switch pc.Model {
+			case "NSX":
+				mut, fam = mutateJSON, "VS"
+			case "PAN-OS":
+				mut, fam = mutateXML, "VS"
+			}
+			mut(pc.Device, func(t, d string) {
+				addGen(&c20Input{Model: pc.Model, Device: t, Files: pc.Files, Origin: "generated:" + pc.Origin + ":device:" + d, Family: fam, Prog: "drc"})
+			})
+			mut(pc.Files["router"], func(t, d string) {
+				files := copyFiles(pc.Files)
+				files["router"] = t
+				addGen(&c20Input{Model: pc.Model, Device: pc.Device, Files: files, Origin: "generated:" + pc.Origin + ":netspoc:" + d, Family: fam, Prog: "drc"})
+			})
+		}
+	}
 	// Reproducers of known findings and fixed findings.
 	inputs = append(inputs, c20Reproducers()...)
 	rep.Extra("family_size", total)
